@@ -1,9 +1,11 @@
 (** C13 — Delta builds expose the same per-branch content as full builds.
     Model: Model/Delta.v (per-branch trees, full / delta runs, layers of documents with branch masks and FileTombstones,
-    branch-restricted visibility).  Proofs: Proofs/Delta.v.
+    branch-restricted visibility), Model/DeltaDecide.v (which requests for a delta build are honoured and which fall back
+    to a normal build: no shards, shard threshold, branch list changed, index options changed).
+    Proofs: Proofs/Delta.v, Proofs/DeltaDecide.v.
     [view stack b p]  = blobs of the documents a search restricted to branch b finds at path p;
     [head_view s b p] = [blob] if branch b's head tree in snapshot s has a file at p, [] otherwise. *)
-From ZV Require Import Lib.Base Model.Delta Proofs.Delta.
+From ZV Require Import Lib.Base Model.Delta Proofs.Delta Model.DeltaDecide Proofs.DeltaDecide.
 
 (** A full build establishes the invariant ... *)
 Theorem C13_full_establishes : forall nb cur b p, b < nb ->
@@ -35,6 +37,52 @@ Proof.
   intros nb runs s k b p Hb. rewrite C13_view_eq by exact Hb. symmetry. apply C13_full_establishes. exact Hb.
 Qed.
 Print Assumptions C13_same_as_fresh_full_build.
+
+(** ---- requests that change between runs (Model/DeltaDecide.v): the list of indexed branches, the index options, the
+    shard threshold.  A requested delta build builds delta shards on top of the existing ones EXACTLY when shards exist,
+    their number does not exceed the threshold, and the existing shards record the same list of branch names (same
+    names at the same positions) and the same options hash; otherwise it is a normal build of the requested branches. *)
+Theorem C13_delta_iff_compatible : forall x q,
+  builds_delta x q = true <->
+  q_kind q = Delta /\ st_stack (x_st x) <> [] /\ q_over q = false /\
+  m_branches (x_meta x) = q_branches q /\ m_opts (x_meta x) = q_opts q.
+Proof. exact builds_delta_iff. Qed.
+Print Assumptions C13_delta_iff_compatible.
+
+Theorem C13_fallback_is_full_build : forall x q r,
+  q_kind q = Delta -> fallback_reason x q = Some r ->
+  x_st (xrun_step x q) = full_build (length (q_branches q)) (q_snap q).
+Proof. exact fallback_is_full. Qed.
+Print Assumptions C13_fallback_is_full_build.
+
+(** For ALL sequences of requests — any branch lists (added, dropped, reordered branches), any option hashes, any
+    threshold outcomes, any requested kinds — after the last run a search restricted to any branch of the LAST request
+    finds, at every path, exactly the head's file: delta runs after a change fall back and still satisfy the view equation. *)
+Theorem C13_view_eq_any_requests : forall qs q b p, b < length (q_branches q) ->
+  view (st_stack (x_st (xrun_all (qs ++ [q])))) b p = head_view (q_snap q) b p.
+Proof. exact xrun_all_view. Qed.
+Print Assumptions C13_view_eq_any_requests.
+
+Theorem C13_same_as_fresh_full_build_any_requests : forall qs q b p, b < length (q_branches q) ->
+  view (st_stack (x_st (xrun_all (qs ++ [q])))) b p =
+  view (st_stack (full_build (length (q_branches q)) (q_snap q))) b p.
+Proof.
+  intros qs q b p Hb. rewrite xrun_all_view by exact Hb. symmetry. apply C13_full_establishes. exact Hb.
+Qed.
+Print Assumptions C13_same_as_fresh_full_build_any_requests.
+
+(** The comparison of the branch lists is necessary: a delta build that goes ahead although a branch was appended to the
+    list (prepareDeltaBuild only diffs the branches recorded in the existing shard) never indexes the new branch.
+    (Variant model, not the code.) *)
+Theorem C13_delta_without_branch_check_refuted : exists q0 q1 b p,
+  b < length (q_branches q1) /\
+  view (st_stack (x_st (xrun_step_unchecked (xrun_step xinit q0) q1))) b p = [] /\ head_view (q_snap q1) b p = [5%N].
+Proof.
+  (* main (name 1) has path 1; then dev (name 2), which has path 2, is indexed as well *)
+  exists (mkReq [[(1, 7)]]%N Full [1%N] 0%N false), (mkReq [[(1, 7)]; [(2, 5)]]%N Delta [1%N; 2%N] 0%N false), 1, 2%N.
+  split; [cbn; lia|]. vm_compute. split; reflexivity.
+Qed.
+Print Assumptions C13_delta_without_branch_check_refuted.
 
 (** The re-adding of every branch's current version of a modified/deleted path is necessary: without it (only the
     changed branch's new file is added, the path is still tombstoned in the older shards) another branch loses its
@@ -95,4 +143,21 @@ Example C13_nonvacuous :
       ([(1, 7, [0; 1]%nat)], []) ]%N /\
   view (st_stack st) 0 1%N = [7%N] /\ view (st_stack st) 1 1%N = [7%N] /\
   view (st_stack st) 1 3%N = [] /\ view (st_stack st) 0 3%N = [6%N].
+Proof. vm_compute. repeat split; reflexivity. Qed.
+
+(** ---- non-vacuity of the decision: six delta requests; the first falls back (no shards), the second is a delta build,
+    the third falls back (branch appended), the fourth is a delta build again, the fifth falls back (options hash), the
+    sixth falls back (more shards than the threshold) — and the view of the last request's branches is the head. *)
+Example C13_decision_nonvacuous :
+  let s1 : snap := [[(1, 7)]]%N in
+  let s2 : snap := [[(1, 8)]]%N in
+  let s3 : snap := [[(1, 8)]; [(2, 5)]]%N in
+  let s4 : snap := [[(1, 9)]; [(2, 5)]]%N in
+  let qs := [mkReq s1 Delta [1%N] 0%N false; mkReq s2 Delta [1%N] 0%N false; mkReq s3 Delta [1%N; 2%N] 0%N false;
+             mkReq s4 Delta [1%N; 2%N] 0%N false; mkReq s4 Delta [1%N; 2%N] 3%N false; mkReq s4 Delta [1%N; 2%N] 3%N true] in
+  (fix go (x : xstate) (l : list request) : list (option reason) :=
+     match l with [] => [] | q :: r => fallback_reason x q :: go (xrun_step x q) r end) xinit qs =
+    [Some NoShards; None; Some BranchList; None; Some IndexOptions; Some OverThreshold] /\
+  length (st_stack (x_st (xrun_all (firstn 4 qs)))) = 2 /\
+  view (st_stack (x_st (xrun_all qs))) 0 1%N = [9%N] /\ view (st_stack (x_st (xrun_all qs))) 1 2%N = [5%N].
 Proof. vm_compute. repeat split; reflexivity. Qed.
